@@ -137,8 +137,8 @@ def body(chk):
             want.append(dict(file="volume", nfp=c["p"]["nfp"]))
         elif c["file"] == "trailer":
             want.append(dict(file="trailer", nlow=c["p"]["nlow"], lens=c["p"]["lens"]))
-    want += [dict(file="volume", nfp=3), dict(file="image", kind="processed", n=2, ndata=4),
-             dict(file="image", kind="signal", n=2, ndata=16), dict(file="trailer", nlow=0, lens=[])]
+    want += [dict(file="volume", nfp=3), dict(file="image", kind="processed", n=2, ndata=4, bps=2),
+             dict(file="image", kind="signal", n=2, ndata=16, bps=8), dict(file="trailer", nlow=0, lens=[])]
     L.instances(want)
     results = checklib.pmap(run_case, todo, chk.scratch, chunksize=8)
     for res in results:
